@@ -297,8 +297,18 @@ Definition envelope_doc_name (env : option str) : str :=
   match env with Some n => n | None => gbnf_parser_inferred_name end.
 Definition doc_schema_name (doc_name : str) : str :=
   match doc_name with [] => gbnf_docroute_default_name | _ => doc_name end.
-Definition meta_schema_name (ty : option str) : str :=
-  match ty with Some t => t | None => gbnf_contract_default_type end.
+(* META TYPE as compile_gbnf_from_meta sees it: key absent | a str | any other value (number, boolean, null, list,
+   block, holographic value).  A non-str value is replaced by a literal when the source has the isinstance guard (flag
+   from the translator; repo 61337a1); without the guard it goes into SchemaDefinition.name as it is and compile_schema
+   raises on it: no grammar, no name (None). *)
+Inductive meta_type := MtAbsent | MtStr (t : str) | MtOther.
+Definition meta_schema_name_g (guard : bool) (ty : meta_type) : option str :=
+  match ty with
+  | MtAbsent => Some gbnf_contract_default_type
+  | MtStr t => Some t
+  | MtOther => if guard then Some gbnf_meta_type_nonstring_name else None
+  end.
+Definition meta_schema_name (ty : meta_type) : option str := meta_schema_name_g gbnf_meta_type_nonstring_is_unknown ty.
 
 (* ---- CONTRACT route: FIELD[name]::chain  (regex _CONTRACT_FIELD_PATTERN + the strips) ----------------
    ASCII whitespace only (specs containing non-ASCII whitespace are out of model). The chain text is parsed
